@@ -270,6 +270,16 @@ fn encode_case(g: &mut Gen, ctx: &mut Ctx) -> CaseResult {
                 Some(h) => h,
                 None => return Ok(()),
             };
+            // a struct literal can populate both IV and Partial IV (no decoder or builder does)
+            if g.ratio(1, 5) {
+                if h.iv.is_empty() {
+                    h.iv = g.nonempty_bytes();
+                }
+                if h.partial_iv.is_empty() {
+                    h.partial_iv = g.nonempty_bytes();
+                }
+                ctx.class("encode:header-with-iv-and-partial-iv");
+            }
             let must_fail;
             let descr;
             match mode {
